@@ -24,7 +24,7 @@ class Job:
 
     def __init__(self, name, ctext, harness, enforce=None, replace=(), loops=False, unwind=None,
                  flags=(), timeout=300, mem_gb=12, function_label=None, defines=(), slice_formula=False,
-                 checks=None, reach=True, object_bits=None, includes=(), bound_text=None, where=""):
+                 checks=None, reach=True, object_bits=None, includes=(), bound_text=None, where="", complete=False, unwindset=()):
         self.__dict__.update(locals())
         del self.__dict__['self']
 
@@ -91,6 +91,8 @@ def run_job(job, bdir, want_trace=True):
         c3 += ["--slice-formula"]
     if job.unwind is not None:
         c3 += ["--unwind", str(job.unwind), "--unwinding-assertions"]
+        if job.unwindset:
+            c3 += ["--unwindset", ",".join(job.unwindset)]
     if job.object_bits:
         c3 += ["--object-bits", str(job.object_bits)]
     c3 += ["--json-ui", gb]
@@ -188,7 +190,8 @@ def record(report, res, pid_prefix, known_reach=("REACH",), classify=None):
         if st == "failed" and ("unwinding assertion" in p.desc or ".unwind." in p.name):
             st = "undecided"
         report.add(oid, fn, "L1", "cbmc-sat" + ("-unwind%d" % job.unwind if job.unwind is not None else "-dfcc"),
-                   st, res.seconds / n, p.loc or job.where, p.desc, bounded=job.bound_text if job.unwind is not None else None)
+                   st, res.seconds / n, p.loc or job.where, p.desc,
+                   bounded=(job.bound_text or "unwind %d" % job.unwind) if (job.unwind is not None and not job.complete) else None)
         if st == "failed":
             failed.append(p)
     if job.reach and not reach_seen:
